@@ -120,7 +120,96 @@ pub fn bracket_depth(text: &str) -> usize {
 }
 
 /// Load `text`; if accepted, execute it in both modes; render every error.  Err = a violation.
+/// Known finding D21: tree-sitter's query cursor (C library, 0.24.7) corrupts memory when a `+`
+/// repetition is applied to something that can match nothing (`(x)*+`, `(x)?+`, `((x)* @c)+`).
+/// True when `text` has a `+` (outside strings and comments) directly after `*` / `?`, or after a
+/// bracketed group that contains a `*` or `?` anywhere inside - an over-approximation; such inputs
+/// are not executed in-process.
+pub fn plus_over_nullable(text: &str) -> bool {
+    let chars: Vec<char> = text.chars().collect();
+    // blank out strings and comments
+    let mut plain = chars.clone();
+    let (mut i, n) = (0, chars.len());
+    while i < n {
+        match chars[i] {
+            '"' => {
+                plain[i] = ' ';
+                i += 1;
+                while i < n && chars[i] != '"' {
+                    if chars[i] == '\\' && i + 1 < n {
+                        plain[i] = ' ';
+                        i += 1;
+                    }
+                    plain[i] = ' ';
+                    i += 1;
+                }
+                if i < n {
+                    plain[i] = ' ';
+                }
+            }
+            ';' => {
+                while i < n && chars[i] != '\n' {
+                    plain[i] = ' ';
+                    i += 1;
+                }
+                continue;
+            }
+            _ => {}
+        }
+        i += 1;
+    }
+    for (k, c) in plain.iter().enumerate() {
+        if *c != '+' {
+            continue;
+        }
+        let mut j = k;
+        while j > 0 && plain[j - 1].is_whitespace() {
+            j -= 1;
+        }
+        if j == 0 {
+            continue;
+        }
+        match plain[j - 1] {
+            '*' | '?' => return true,
+            close @ (')' | ']') => {
+                let open = if close == ')' { '(' } else { '[' };
+                let mut depth = 0usize;
+                let mut m = j - 1;
+                loop {
+                    if plain[m] == close {
+                        depth += 1;
+                    } else if plain[m] == open {
+                        depth -= 1;
+                        if depth == 0 {
+                            break;
+                        }
+                    }
+                    if m == 0 {
+                        break;
+                    }
+                    m -= 1;
+                }
+                if plain[m..j].iter().any(|x| *x == '*' || *x == '?') {
+                    return true;
+                }
+            }
+            _ => {}
+        }
+    }
+    false
+}
+
+/// The pinned input of D21, for the child process that demonstrates it.
+pub const D21_TEXT: &str = "(module ((_)* @stmts)+)\n{\n  print @stmts\n}\n";
+
 pub fn exercise(text: &str, source: &str, globals: &BTreeMap<String, CVal>) -> Result<(&'static str, Vec<String>), Failure> {
+    if plus_over_nullable(text) {
+        return Ok(("excluded", vec!["excluded:plus-over-nullable-repetition(known finding D21)".to_string()]));
+    }
+    exercise_unguarded(text, source, globals)
+}
+
+pub fn exercise_unguarded(text: &str, source: &str, globals: &BTreeMap<String, CVal>) -> Result<(&'static str, Vec<String>), Failure> {
     let d = |extra: serde_json::Value| json!({"dsl": text, "source": source, "globals": globals_json(globals), "more": extra});
     let loaded = match load(text) {
         Err(p) => return Err(Failure::new(format!("C05:load:{}", p.signature()), format!("File::from_str panicked: {}", p.message), d(json!({})))),
@@ -251,6 +340,9 @@ fn reference_cycles(t: &mut Tape) -> String {
 }
 
 pub fn case(tape: &[u32]) -> CaseOutcome {
+    if tape.len() == 2 && tape[0] == 0xFFFF_FF21 {
+        return d21_probe();
+    }
     if tape.len() >= 2 && tape[0] == 0xFFFF_FF05 {
         // a libFuzzer artifact stored as bytes
         let bytes: Vec<u8> = tape[2..].iter().map(|w| *w as u8).collect();
@@ -326,6 +418,13 @@ pub fn case(tape: &[u32]) -> CaseOutcome {
     if bracket_depth(&text) > 64 {
         return CaseOutcome::Discard("bracket nesting deeper than 64");
     }
+    if std::env::var("VERIF_SHOW").is_ok() {
+        // debugging aid for crash candidates: show the input before it is exercised
+        use std::io::Write;
+        let mut so = std::io::stdout();
+        let _ = writeln!(so, "--- dsl ---\n{}\n--- source ---\n{}\n--- globals ---\n{:?}", text, source, globals);
+        let _ = so.flush();
+    }
     match exercise(&text, &source, &globals) {
         Err(f) => CaseOutcome::Fail(f),
         Ok((stage, more)) => {
@@ -345,7 +444,7 @@ pub fn case(tape: &[u32]) -> CaseOutcome {
 
 pub fn spec(tier: &str) -> Spec {
     let mut s = Spec::new("C05", tier, 12_000, 150_000, 900);
-    s.rule = "four layers: (1) token- and byte-level mutations (delete / duplicate / swap / splice / replace / truncate, stray delimiters, huge numerals, unterminated strings and comments, multi-byte characters, keywords in wrong places) of generated programs (canonical or random layout, incl. patterns with three root captures or quantified roots) and of the reference's example files; (2) accepted generated programs with a high rate of risky choices and injected run-time faults, executed with the declared globals supplied, missing or wrongly typed; (3) hand-written hazards (recursive shorthands, captures in shorthands, out-of-range numerals and regex captures, overflow, assertion-only regexes); (4) scoped variables that refer to each other, possibly in a cycle (directly, through lists, calls, comprehensions and inherited lookups), used or unused. Sources: error-free, ERROR-bearing, empty and non-ASCII trees. Oracle: File::from_str returns; an accepted file executes in both modes under a poll bound of 2000000 (a breach is re-run under 8000000 before it is reported); every load and execution error renders with Display and display_pretty to non-empty text. A panic, a process abort (signal handler writes the candidate tapes) or a poll-bound breach is a violation. Inputs with bracket nesting > 64 are discarded and counted. Non-trivial: the input was executed, or rejected by the checker (not the parser). Distinct = fingerprint of (text, source).".into();
+    s.rule = "four layers: (1) token- and byte-level mutations (delete / duplicate / swap / splice / replace / truncate, stray delimiters, huge numerals, unterminated strings and comments, multi-byte characters, keywords in wrong places) of generated programs (canonical or random layout, incl. patterns with three root captures or quantified roots) and of the reference's example files; (2) accepted generated programs with a high rate of risky choices and injected run-time faults, executed with the declared globals supplied, missing or wrongly typed; (3) hand-written hazards (recursive shorthands, captures in shorthands, out-of-range numerals and regex captures, overflow, assertion-only regexes); (4) scoped variables that refer to each other, possibly in a cycle (directly, through lists, calls, comprehensions and inherited lookups), used or unused. Sources: error-free, ERROR-bearing, empty and non-ASCII trees. Oracle: File::from_str returns; an accepted file executes in both modes under a poll bound of 2000000 (a breach is re-run under 8000000 before it is reported); every load and execution error renders with Display and display_pretty to non-empty text. A panic, a process abort (signal handler writes the candidate tapes) or a poll-bound breach is a violation. Inputs with bracket nesting > 64 are discarded and counted; inputs with a `+` repetition over something that can match nothing (known finding D21, a memory error in tree-sitter's query cursor) are not executed and counted as excluded. Non-trivial: the input was executed, or rejected by the checker (not the parser). Distinct = fingerprint of (text, source).".into();
     s.assumptions = vec!["a run that neither polls nor returns can only be stopped by the driver's wall-clock timeout (reported as exit 2)".into()];
     s
 }
@@ -378,11 +477,37 @@ fn tape_of_bytes(bytes: &[u8]) -> Vec<u32> {
 /// Inputs of known findings, run on every invocation (a libFuzzer-artifact style tape).
 const PINNED: &[&str] = &["import_statement:_) name @name)\n{\n  node @name.source\n}\n", "nosuchnode) @x { print @x }\n"];
 
+/// Child side of the D21 probe: load and execute the pinned input with no handlers installed.
+pub fn crash_probe_child() {
+    let _ = exercise_unguarded(D21_TEXT, "pass\nx\n", &BTreeMap::new());
+}
+
+/// Parent side: does the pinned input of D21 still kill a process?
+fn d21_probe() -> CaseOutcome {
+    let exe = match std::env::current_exe() {
+        Ok(e) => e,
+        Err(_) => return CaseOutcome::Discard("no current exe"),
+    };
+    let status = std::process::Command::new(exe).args(["C05", "--crash-probe"]).stdout(std::process::Stdio::null()).stderr(std::process::Stdio::null()).status();
+    match status {
+        Ok(st) if st.success() => CaseOutcome::Pass(CaseReport { fingerprint: fingerprint(&D21_TEXT), nontrivial: false, labels: vec!["d21-probe-survived".into()], counters: vec![], sample: None, evaluations: 1 }),
+        Ok(st) => CaseOutcome::Fail(Failure::new(
+            "C05:process-abort:plus-over-nullable-repetition",
+            format!("a child process executing the pinned query `((_)* @stmts)+` died ({:?})", st),
+            json!({"dsl": D21_TEXT, "source": "pass\nx\n"}),
+        )),
+        Err(_) => CaseOutcome::Discard("cannot start the probe child"),
+    }
+}
+
 pub fn run_check(tier: &str) -> i32 {
     let started = std::time::Instant::now();
     let mut spec = spec(tier);
     let pinned: Vec<Vec<u8>> = PINNED.iter().map(|s| s.as_bytes().to_vec()).collect();
     let r0 = run_fixed(&spec, &pinned, artifact_case, |b| vec![0xFFFF_FF05, 0].into_iter().chain(b.iter().map(|x| *x as u32)).collect());
+    // D21 kills the process: its pinned input runs in a child (`tsgv C05 --crash-probe`)
+    let r21 = run_fixed(&spec, &[()], |_| d21_probe(), |_| vec![0xFFFF_FF21, 0]);
+    let r0 = merge_results(r0, r21);
     let mut result = merge_results(r0, run_tapes(&spec, case));
     if tier == "thorough" && result.violations.is_empty() {
         // Driver B: libFuzzer on raw text and on tapes, 8 processes each
